@@ -8,6 +8,11 @@ from .. import common as C
 from ..gen_inv import PlanGen
 from .. import progcheck as PC
 from . import shape, expandcorr
+from .. import tref as _tref
+
+
+def tref_first_diff(a, b):
+    return _tref.first_diff(a, b) or []
 
 
 def plan_summary(plan):
@@ -122,6 +127,7 @@ def run(prop, tier, seed, replay, clauses, n_quick, n_thorough, rule, gen_kw=Non
     plans += [g.wildcard_prefix_plan() for _ in range(max(2, n // 20))]   # leading members leave a key unbound
     plans += [g.default_vs_explicit_plan() for _ in range(max(2, n // 30))]  # omitted default argument next to an explicit one
     plans += [g.assoc_subsets_plan() for _ in range(max(2, n // 30))]     # members bind different subsets of three associated types
+    plans += [g.sibling_groups_plan() for _ in range(max(2, n // 30))]    # sibling sub-headers in families of their own
     # adversarial presentation of a third of the plans: parameters spelled like reserved canonical names in permuted
     # order / like traits, items and associated types; bounds moved to the where-clause; declaration order shuffled
     from . import variants as V
@@ -203,4 +209,26 @@ def run(prop, tier, seed, replay, clauses, n_quick, n_thorough, rule, gen_kw=Non
     shape.validate(rep, exe, shape_cases, prop, excuse=excuse)
     # the Lean model of the three generators (Expand.lean) against the real helper trait / helper impls / main impl
     expandcorr.compare(rep, exe, shape_cases)
+    # … and once more with bodies that mention `Self::<item>` paths (expansion level only: rustc would find them ambiguous between the
+    # trait and its helper in trait mode): the helper impls must keep the user's body verbatim (seeded change C01g)
+    import copy
+    body_cases = []
+    for pl in shape_cases[: max(10, len(shape_cases) // 4)]:
+        q = copy.deepcopy(pl)
+        q.body_paths = True
+        body_cases.append(q)
+    expandcorr.compare(rep, exe, body_cases, label="expand-bodies")
+    # the property-level reading of the same thing, on the real expansion alone: in trait mode every helper impl carries exactly the items
+    # of its member block (the block as canonicalised by the resolver: only the generic parameters are respelled)
+    for q, d in zip(body_cases, shape.validate(rep, exe, body_cases, prop, judge=False, expand=False)):
+        if d is None or q.mode != "trait":
+            continue
+        for fi, (g_, fam) in enumerate(zip(d.groups, d.families)):
+            for mi, (m_, (h_, htoks)) in enumerate(zip(g_["items"], fam["helpers"])):
+                rep.count("helper-items-verbatim:compared")
+                if shape.impl_parts(m_)["items"] != shape.impl_parts(h_)["items"]:
+                    rep.oracle_failures.append({"clause": "a helper impl does not carry the items of its member block verbatim (bodies mentioning `Self::<item>` paths)",
+                                                "invocation": q.invocation_text()[:3000], "family": fi, "member": mi, "helper_impl_tokens": htoks[:1500],
+                                                "first_difference": list(tref_first_diff(shape.impl_parts(m_)["items"], shape.impl_parts(h_)["items"]))[-6:]})
+                    break
     return rep.finish()
